@@ -74,6 +74,16 @@ class RuleResult:
                 "samples": self.samples, "notes": self.notes, "errors": self.errors}
 
 
+def retag(result, rid, title=None):
+    """Re-issue a rule result under another property's rule id (shared rules)."""
+    result.rule = rid
+    if title:
+        result.title = title
+    for f in result.findings:
+        f.rule = rid
+    return result
+
+
 def load_known():
     p = os.path.join(VERIF, "known_findings.json")
     with open(p) as fh:
